@@ -101,6 +101,47 @@ def layout_product_cases(rulesets, group=16):
     return out
 
 
+def layout_sweep_configs():
+    """Every layout / indentation option moved away from its default, ONE at a time (bounded deviation in
+    configuration space), each to every other documented value."""
+    out = []
+    ind = {
+        "indent_unit": ["tab"], "tab_space_size": [2, 8], "indented_joins": [True], "indented_ctes": [True], "indented_using_on": [False],
+        "indented_on_contents": [False], "indented_then": [False], "indented_then_contents": [False], "implicit_indents": ["allow", "require"],
+        "trailing_comments": ["after"], "ignore_comment_lines": [True],
+    }
+    for k, vs in ind.items():
+        for v in vs:
+            out.append({"indentation": {k: v}})
+    lay = {
+        "comma": {"spacing_before": ["single", "any"], "spacing_after": ["touch", "any"], "line_position": ["leading"]},
+        "binary_operator": {"spacing_within": ["single", "any"], "line_position": ["trailing"]},
+        "comparison_operator": {"spacing_within": ["single"], "line_position": ["trailing"]},
+        "statement_terminator": {"spacing_before": ["single", "any"], "line_position": ["leading", "alone"]},
+        "set_operator": {"line_position": ["leading", "trailing", "alone"]},
+        "start_bracket": {"spacing_after": ["single", "any"]},
+        "end_bracket": {"spacing_before": ["single", "any"]},
+        "casting_operator": {"spacing_before": ["single"], "spacing_after": ["single"]},
+        "function_name": {"spacing_within": ["single"]},
+        "keyword": {"spacing_before": ["any"], "spacing_after": ["any"]},
+    }
+    for t, opts in lay.items():
+        for k, vs in opts.items():
+            for v in vs:
+                out.append({"layout": {"type": {t: {k: v}}}})
+    return out
+
+
+def layout_sweep_cases(rulesets, group=16):
+    base = sorted(set(corpus.G(1)) | set(GLUE), key=lambda s: (len(s), s))
+    out = []
+    for rs in rulesets:
+        for cfg in layout_sweep_configs():
+            for i in range(0, len(base), group):
+                out.append({"k": "strs", "d": "ansi", "rs": rs, "ss": base[i : i + group], "cfg": cfg})
+    return out
+
+
 def lt05_product_cases(rulesets=("LT05", "all"), group=16):
     """Multi-line files (every ordered triple of 5 statements, some carrying inline / block / multi-line block comments, long
     identifiers) x LT05's two comment options x max_line_length {30, 50}: long lines with comments that move
